@@ -237,6 +237,51 @@ def wf_grid(rng, native=False):
     return grid, {"transposed": transposed, "kinds": kinds, "n_row": n_row}
 
 
+def check_csv_route(grid, want, out, case, i):
+    """join the text cells with a separator that occurs in none of them, read the text with read_csv (stream or file)
+    and require the table make_table gives for the same cells"""
+    import io
+    import os
+    import tempfile
+    import pdtable
+    from harness.props.c03 import ref_kind
+    cells = [c for r in grid for c in r]
+    if any(not isinstance(c, str) or "\n" in c or "\r" in c for c in cells):
+        return True
+    if ref_kind(grid[0]) != "table" or any(ref_kind(list(r)) != "plain" for r in grid[1:]):
+        return True     # inside a stream a blank or marker first cell would end the block: not this table's text
+    sep = next((s for s in (";", ",", "|", "~") if not any(s in c for c in cells)), None)
+    if sep is None:
+        return True
+    text = "".join(sep.join(r) + "\n" for r in grid) + "\n"
+    tmp = None
+    try:
+        with warnings.catch_warnings():
+            warnings.simplefilter("ignore")
+            if i % 4 == 0:
+                fd, tmp = tempfile.mkstemp(prefix="pdt-c02-", suffix=".csv")
+                with os.fdopen(fd, "w", newline="") as fh:
+                    fh.write(text)
+                src = tmp
+            else:
+                src = io.StringIO(text)
+            tabs = [b for bt, b in pdtable.read_csv(src, sep=sep) if bt.name == "TABLE"]
+    except Exception as e:  # noqa: BLE001
+        out.fail("read_csv rejects the text of a well-formed grid", dict(case, sep=sep), type(e).__name__, None,
+                 key="csv_route:" + type(e).__name__)
+        return False
+    finally:
+        if tmp:
+            os.unlink(tmp)
+    got = rc.canon_table(tabs[0]) if len(tabs) == 1 else None
+    exp = {k: v for k, v in want.items() if k != "fixer"}
+    if got != exp:
+        out.fail("read_csv types the cells differently than make_table on the same cells", dict(case, sep=sep), got, exp,
+                 key="csv_route")
+        return False
+    return True
+
+
 def check_json_form(grid, ref, out, case):
     from pdtable.io.parsers.blocks import make_table_json_data
     try:
@@ -424,6 +469,9 @@ def run(tier, seed, model_ok, translator, search=False):
         if model_ok:
             ops.append(rc.model_op("make_table", grid, "strict"))
             pend.append(("make_table", case, impl))
+        # the same cells through read_csv (text cells only): the CSV reader hands the splitter exactly these cells
+        if not native and not check_csv_route(grid, impl["ok"], out, case, i):
+            continue
         # the JSON form of the same table (make_table_json_data): same typing rules, nothing else turned into a
         # missing value — numbers by value (infinities stay infinities), NaN / NaT as None
         if not check_json_form(grid, ref, out, case):
@@ -447,6 +495,25 @@ def run(tier, seed, model_ok, translator, search=False):
         check_missing_sources(grid, ref, impl["ok"], out, case)
         # locality: change one cell outside column j (keeping its own column well formed)
         locality(rng, grid, info, impl["ok"], out, case)
+
+    # very wide tables (more columns than CPython's cached small integers): both orientations
+    for tr in (False, True):
+        n = 300
+        names = [f"c{k}" for k in range(n)]
+        units = [["m", "text", "onoff", "datetime", "kg"][k % 5] for k in range(n)]
+        vals = [{"m": "1.5", "text": "x", "onoff": "1", "datetime": "2020-01-02", "kg": "-"}[u] for u in units]
+        if tr:
+            grid = [["**wide*"], ["all"]] + [[nm, u, v, v] for nm, u, v in zip(names, units, vals)]
+        else:
+            grid = [["**wide"], ["all"], names, units, vals, vals]
+        case = {"seed": seed, "index": "wide-" + ("t" if tr else "r"), "stream": "c", "cells": grid_to_json(grid)}
+        impl = rc.impl_make_table(grid, "strict")
+        out.evaluations += 1
+        out.count("c:wide-table")
+        if "exc" in impl:
+            out.fail("well-formed grid rejected", case, impl, None, key="wf_rejected:" + impl["exc"])
+        else:
+            compare_with_ref(ref_table(grid), impl["ok"], out, case)
 
     if model_ok:
         for (what, case, impl), ans in zip(pend, common.run_model(ops)):
